@@ -94,6 +94,39 @@ NEEDS = {
                'install a dictionary, then set_dict(NULL)'),
     'C20-m2': ('upipe_agg_set_flow_def(): match test moved after input_size is overwritten',
                'accepted flow definition with a block size, refused foreign definition, then inputs whose anticipation differs'),
+    # second round (other code sites, written after the checks had been strengthened once)
+    'C01-r2-m1': ('upipe_helper_output set_output(): old output released before the forwarded requests are withdrawn from it',
+                  'output replaced while >= 1 request is registered through the pipe and the pipe holds the last reference on the old output'),
+    'C01-r2-m2': ('upipe_input(): use/release pair around the input function removed',
+                  'the last reference on the pipe is released from inside its own input function (by its output or a probe)'),
+    'C04-r2-m1': ('upipe_helper_output _output(): an output answering UBASE_ERR_UNHANDLED to set_flow_def counts as accepting',
+                  'output rejecting the flow definition with exactly UBASE_ERR_UNHANDLED, then a buffer'),
+    'C04-r2-m2': ('udict_cmp(): second loop iterates over the first dictionary again',
+                  'flow definition that only gains attributes (strict superset of the negotiated one), then a buffer'),
+    'C05-r2-m1': ('upipe_helper_input unshift_input(): ulist_add instead of ulist_unshift',
+                  'pipe holding >= 3 buffers whose drain writes at least one and is then refused with >= 2 still held'),
+    'C05-r2-m2': ('upipe_dup_input(): last sub-pipe takes the original uref even when the dup has its own output',
+                  'dup pipe with a main output and at least one output sub-pipe'),
+    'C06-r2-m1': ('upipe_work_control_first_inner(): remote loop thawed before the command is forwarded',
+                  'transfer manager with a mutex, a command the queue pipes do not handle sent to the worker pipe'),
+    'C06-r2-m2': ('upipe_helper_input output_input(): refused buffer put back at the tail',
+                  'stalled queue sink whose spool holds >= 2 more buffers than fit when room reappears'),
+    'C12-r2-m1': ('upipe_helper_output register_output_request(): forwarded before being added to the list',
+                  'answer arriving synchronously during registration, requester unregisters from its callback'),
+    'C12-r2-m2': ('upipe_qsink_unregister_request(): removed from the list only if the UNREGISTER message could be queued',
+                  '255-slot out-of-band queue full when the request is unregistered'),
+    'C13-r2-m1': ('upump_common_start(): started recorded only when no blocker is held',
+                  'upump_start while a blocker is held and the pump is not started, then the blocker is released'),
+    'C13-r2-m2': ('upipe_helper_input clean_input(): NB_UREFS reset after the unblock (same site family as C01-m1)',
+                  'helper_input pipe flushed / freed while it blocks its source pump'),
+    'C14-r2-m1': ('upipe_chunk_stream_flush(): chunk size always (remaining / align) * align',
+                  'data pending, MTU lowered with set_mtu, release without further input'),
+    'C14-r2-m2': ('upipe_ts_sync_flush(): loop condition uses TS_SIZE instead of the configured packet size',
+                  'packet size 204, sync acquired, released while the tail holds 188..203 octets starting with 0x47'),
+    'C20-r2-m1': ('_upipe_chunk_stream_set_mtu(): early return when the rounded chunk size is unchanged',
+                  'accepted set_mtu whose rounded size equals the current one while mtu or align differ'),
+    'C20-r2-m2': ('upipe_agg_control(): partial aggregate output whenever the output-size helper handled the command (getter included)',
+                  'get_output_size called while a partial aggregate is held'),
 }
 
 
